@@ -105,6 +105,19 @@ CLAIMS = {
              "GC, Tag+SaveIndex with AutoSaveIndex off.",
         ref="3 C10", technique="TLA+ crash model checked with TLC; strace-injected kills of the real process at every system "
                               "call, recoveries judged by TLC (trace validation)"),
+    "C11": dict(
+        text="TarExtract.tla models a POSIX-like tree (symbolic and hard links, inodes), Go's lexical Clean/Join/Rel and "
+             "the extraction algorithm (resolveRelToBase with its parent-symlink walk, ensureLinkPath, writeFile, "
+             "MkdirAll, os.Link, os.Symlink with remove-and-retry) plus named-blob pushes; TLC explores every sequence of "
+             "regular / directory / symlink / hard-link entries and titles up to depth 3-5 over a name and link-target "
+             "universe (relative, absolute, with .., through earlier links, naming files in the process's cwd) with "
+             "OutsideUnchanged as invariant; every reachable tree's sequence is then replayed into a real file.Store in a "
+             "sandbox and TarJudge.tla checks that nothing outside the working directory was created, changed, re-moded "
+             "or deleted, that lexically escaping names were rejected, and that the real tree equals the model's.",
+        note="Linux path semantics; TMPDIR is pointed inside the sandbox and excluded; timestamps and link counts are not "
+             "judged. Fixed in /repo while building this check: F7, F8, F16.",
+        ref="3 C11", technique="TLA+ model of the file system and the extraction algorithm checked with TLC; TLC-enumerated "
+                              "archives replayed into the code, outcome judged and compared with the model by TLC"),
     "C19": dict(
         text="Pack.tla states the four packers as a decision table over (version, artifactType class, config class, "
              "config annotations, layers, subject, annotations, target); PackCases.tla model-checks the table and emits "
